@@ -30,7 +30,8 @@ EXPLANATION = (
     "accumulator (a FillSeq) and a Sequence of everything after it, in order, and compute/request post-process the "
     "accumulator's results with that Sequence; the wrapped element itself may stand only for a call-like attribute, never for run; the "
     "results of run([value]) are filled in a loop, not taken with next().  Run._call_run applies the callable in its own generator frame "
-    "(not through map/filter, which would let a StopIteration of the callable end the flow silently).  Does not decide equality of the drivers' results on concrete chains.")
+    "(not through map/filter, which would let a StopIteration of the callable end the flow silently).  Does not decide equality of the drivers' results on concrete chains."    " Added after the eighth round of seeded changes and the second round of behaviour-preserving changes: (g) STOP SIGNAL, tree-wide: a try whose body fills another element (x.fill / x.fill_into) has a handler for LenaStopFill, a class above it or everything that does not re-raise only in Split.run."
+)
 RULES = {
     "C05-a": "TYPESTATE: adapters bind the requested method of the wrapped element, leave no stub, raise only Lena type/value errors",
     "C05-b": "wrapper bodies forward exactly once, in the documented nesting",
